@@ -578,6 +578,9 @@ type RangeArg struct {
 	rbs RangeArgBdrySlice
 }
 
+// range-boundary (RFC 6020 section 12): min / max / integer-value / decimal-value
+var rangeBoundaryRe = regexp.MustCompile(`^-?(0|[1-9][0-9]*)(\.[0-9]+)?$`)
+
 func (a *RangeArg) Parse() error {
 	str := string(a.arg)
 	ErrInval := errors.New("invalid argument: " + str)
@@ -621,6 +624,10 @@ func (a *RangeArg) Parse() error {
 		default:
 			return ErrInval
 		}
+		if (!r.Min && !rangeBoundaryRe.MatchString(r.Start)) ||
+			(!r.Max && !rangeBoundaryRe.MatchString(r.End)) {
+			return ErrInval
+		}
 		a.rbs = append(a.rbs, r)
 	}
 	return nil
@@ -662,7 +669,7 @@ func (a *LengthArg) Parse() error {
 			case "min":
 				l.Min = true
 			default:
-				i, e := strconv.ParseUint(bs[0], 0, 64)
+				i, e := strconv.ParseUint(bs[0], 10, 64)
 				if e != nil {
 					return e
 				}
@@ -674,7 +681,7 @@ func (a *LengthArg) Parse() error {
 			case "min":
 				l.Min = true
 			default:
-				i, e = strconv.ParseUint(bs[0], 0, 64)
+				i, e = strconv.ParseUint(bs[0], 10, 64)
 				if e != nil {
 					return e
 				}
@@ -684,7 +691,7 @@ func (a *LengthArg) Parse() error {
 			case "max":
 				l.Max = true
 			default:
-				i, e = strconv.ParseUint(bs[1], 0, 64)
+				i, e = strconv.ParseUint(bs[1], 10, 64)
 				if e != nil {
 					return e
 				}
